@@ -128,13 +128,65 @@ def CVal.toQ : CVal → Option Q
   | .flt q => some q
   | .bool _ => none
 
-def litVal (text : String) : Except CErr CVal :=
-  let cs := text.toList
-  if cs.contains '.' then
-    match ofDecimal cs with
+/-! ### how Go reads one numeric token (Go spec, "Integer literals" / "Floating-point literals", decimal forms)
+
+`float_lit = digits "." [digits] [exp] | digits exp | "." digits [exp]`, `exp = ("e"|"E") ["+"|"-"] digits`.
+A token with a `.` or an exponent is a FLOATING-POINT constant; a token of digits only is an INTEGER constant (octal
+when it starts with `0`) — and an operator on two integer constants is integer arithmetic (`7 / 2` is 3).  The printer's
+`text.contains(['.', 'e', 'E'])` test in `go_float_literal` is exactly `isFloatText`.  Hexadecimal forms and `_`
+separators are not read (no Rust formatting trait prints them): `badLiteral`. -/
+
+/-- Go's kind test on a decimal numeric token: a decimal point or an exponent makes it a floating-point literal -/
+def isFloatText (cs : List Char) : Bool := cs.any fun c => c == '.' || c == 'e' || c == 'E'
+
+/-- mantissa `digits . [digits]`, `. digits` or `digits` -/
+def ofMantissa (cs : List Char) : Option Q :=
+  let ip := cs.takeWhile (· != '.')
+  match cs.dropWhile (· != '.') with
+  | [] => if IsDigits ip then some (Q.ofInt (decVal ip)) else none
+  | _ :: fp =>
+    if (ip = [] ∨ IsDigits ip) ∧ (fp = [] ∨ IsDigits fp) ∧ ¬ (ip = [] ∧ fp = []) then
+      some ⟨(decVal (ip ++ fp) : Int), 10 ^ fp.length⟩
+    else none
+
+/-- the digits after `e` / `E`, with an optional sign -/
+def expVal (ex : List Char) : Option Int :=
+  match ex with
+  | '+' :: d => if IsDigits d then some (decVal d : Int) else none
+  | '-' :: d => if IsDigits d then some (-(decVal d : Int)) else none
+  | d => if IsDigits d then some (decVal d : Int) else none
+
+/-- `q · 10^e` -/
+def Q.scale10 (q : Q) (e : Int) : Q :=
+  if e ≥ 0 then ⟨q.num * (10 ^ e.toNat : Nat), q.den⟩ else ⟨q.num, q.den * 10 ^ (-e).toNat⟩
+
+/-- the rational a Go floating-point literal token (decimal forms) denotes -/
+def ofGoFloatText (cs : List Char) : Option Q :=
+  let isE : Char → Bool := fun c => c == 'e' || c == 'E'
+  let m := cs.takeWhile (!isE ·)
+  match cs.dropWhile (!isE ·) with
+  | [] => ofMantissa m
+  | _ :: ex =>
+    match ofMantissa m, expVal ex with
+    | some q, some e => some (q.scale10 e)
+    | _, _ => none
+
+/-- one numeric token: its kind and exact value -/
+def litValL (cs : List Char) : Except CErr CVal :=
+  if isFloatText cs then
+    match ofGoFloatText cs with
     | some q => .ok (.flt q)
     | none => .error .badLiteral
-  else if IsDigits cs then .ok (.int (decVal cs)) else .error .badLiteral
+  else
+    match goIntToken cs with
+    | some n => .ok (.int (n : Int))
+    | none => .error .badLiteral
+
+def litVal (text : String) : Except CErr CVal := litValL text.toList
+
+/-- `go_float_literal`: the text Rust's formatting gives, with the suffix appended when it shows neither a `.` nor
+    an exponent -/
+def spellFloat (suffix text : List Char) : List Char := if isFloatText text then text else text ++ suffix
 
 def isArith (sym : String) : Bool := sym = "+" || sym = "-" || sym = "*" || sym = "/"
 
